@@ -7,10 +7,12 @@ import Verif.Model.Token
 
   auth op=<sign|sshsign|sshrenew|sshrekey|revoke|sshrevoke> now=<ns> ssh=0|1 noiat=0|1 start=<s>
        hosts=<xname:v6:parses:xnorm:xstripped,…>
-       provs=<ty:xname:xkid:xclient:xissuer:xidEsc:init:sshEnabled:disableRenewal:renewAfterExpiry,…>
+       provs=<ty:xname:xkid:xclient:xaudience:xissuer:xidEsc:init:sshEnabled:disableRenewal:renewAfterExpiry,…>
        parsed=0|1 kid= iss= sub= aud=<xraw:xstripped,…> exp=<s|!> nbf= iat= azp= tid= email= lbt=0|1
-       frag= fragesc= hasssh=0|1 sshtype=0|1 nebssh=0|1 pop=<!|after:before:host:user:serialIsSub> cr=<8 bits,…>
+       frag= fragesc= hasssh=0|1 sshtype=0|1 nebssh=0|1 pop=<!|after:before:host:user:serialIsSub> cr=<8 bits,…> [cl=<5 bits,…>]
      -> ok:x<name of the answering provisioner> | reject | crash
+        with http=1 (request sent through the api handler, database tables diffed):
+        ok | reject:pre (refused before UseToken) | reject:post (refused by the provisioner) | crash
   aud hosts=<…> frag=<!|xescaped>
      -> the seven rendered lists (`xraw|xstripped` items, lists joined by `;`)
   handler name=<Go function name>
@@ -43,6 +45,7 @@ def op? : String → Option Op
 def ty? : String → Option PType
   | "jwk" => some .jwk | "x5c" => some .x5c | "sshpop" => some .sshpop | "oidc" => some .oidc
   | "k8ssa" => some .k8ssa | "nebula" => some .nebula | "acme" => some .acme | "scep" => some .scep
+  | "aws" => some .aws | "gcp" => some .gcp | "azure" => some .azure
   | _ => none
 
 def host? (t : String) : Option Host :=
@@ -52,8 +55,8 @@ def host? (t : String) : Option Host :=
 
 def prov? (t : String) : Option Prov :=
   match t.splitOn ":" with
-  | [ty, n, k, c, i, e, ini, ssh, dr, rae] => do
-    pure { ty := (← ty? ty), name := (← str? n), kid := (← str? k), clientId := (← str? c),
+  | [ty, n, k, c, au, i, e, ini, ssh, dr, rae] => do
+    pure { ty := (← ty? ty), name := (← str? n), kid := (← str? k), clientId := (← str? c), audience := (← str? au),
            oidcIssuer := (← str? i), nameEsc := (← str? e), init := (← bool? ini),
            sshEnabled := (← bool? ssh), disableRenewal := (← bool? dr), renewAfterExpiry := (← bool? rae) }
   | _ => none
@@ -66,6 +69,11 @@ def taud? (t : String) : Option TAud :=
 def cr? (t : String) : Option Cr :=
   match t.toList.map (· == '1') with
   | [a, b, c, d, e, f, g, h] => some ⟨a, b, c, d, e, f, g, h⟩
+  | _ => none
+
+def cl? (t : String) : Option Cl :=
+  match t.toList.map (· == '1') with
+  | [a, b, c, d, e] => some ⟨a, b, c, d, e⟩
   | _ => none
 
 def pop? (t : String) : Option (Option Pop) :=
@@ -108,13 +116,22 @@ def evalAuth (kv : List (String × String)) : Option String := do
     sshTypeOk := (← bool? (← lookup kv "sshtype"))
     nebSshOk := (← bool? (← lookup kv "nebssh"))
     pop := (← pop? (← lookup kv "pop"))
-    cr := (← list? cr? (← lookup kv "cr")) }
+    cr := (← list? cr? (← lookup kv "cr"))
+    cl := (← list? cl? ((lookup kv "cl").getD "-")) }
+  let http := lookup kv "http" == some "1"
   match authorize cfg now op tok with
   | .ok i =>
+    if http then pure "ok" else
     match cfg.provs[i]? with
     | some p => pure ("ok:x" ++ hex p.name)
     | none => pure "ok:?"
-  | .reject _ => pure "reject"
+  | .reject r =>
+    if http then
+      let tracked := match loadByToken cfg tok with
+        | some (_, p) => p.tracksTokens
+        | none => false
+      pure (if r.beforeUseToken || !tracked then "reject:pre" else "reject:post")
+    else pure "reject"
   | .crash => pure "crash"
 
 def showList (l : List (Str × Str)) : String :=
